@@ -892,3 +892,75 @@ func ruleAtomOrderByName(c *Ctx, r *Report) {
 		r.undecided(rule, "anchor:atom-arm", c.Pos(cmp.Pos()), desc, "no non-zero constant return under an assertion of the other operand to Atom")
 	}
 }
+
+// ---------------------------------------------------------------------------
+// R-COMPARE-EQUAL-IS-ZERO (C08; added after seed C08h): the order "yields '=' exactly for structurally identical
+// terms". In the same-type arm of a numeric Compare method, once the receiver is known to be neither greater nor
+// less than the other number - both comparisons of the same two operands are known false - every return
+// delivers the constant 0. A tie-break inserted below the two comparisons (sign bit, bit pattern) runs for EVERY
+// pair of equal numbers, not only for the pair its author had in mind (-0.0 and 0.0): compare(O, -1.5, -1.5)
+// answers <, X == X fails, sort/2 keeps duplicates.
+func ruleCompareEqualIsZero(c *Ctx, r *Report) {
+	const rule = "R-COMPARE-EQUAL-IS-ZERO"
+	desc := "a numeric Compare returns 0 where neither operand is known greater"
+	n := 0
+	for _, tn := range []string{"Float", "Integer"} {
+		fn := c.method(tn, "Compare")
+		if fn == nil {
+			r.undecided(rule, "anchor:"+tn+".Compare", "-", desc, "not found")
+			continue
+		}
+		// ordered pairs (a, b) for which "a > b" is known false and "a < b" is known false
+		type pair struct{ a, b ssa.Value }
+		eachInstr(fn, func(in ssa.Instruction) {
+			ret, ok := in.(*ssa.Return)
+			if !ok || len(ret.Results) != 1 {
+				return
+			}
+			notGreater := map[pair]bool{} // a > b is false
+			for f := range c.factsAt(in.Block()) {
+				bo, ok := f.cond.(*ssa.BinOp)
+				if !ok {
+					continue
+				}
+				a, b := stripConv(bo.X), stripConv(bo.Y)
+				switch {
+				case bo.Op == token.GTR && !f.pol, bo.Op == token.LEQ && f.pol:
+					notGreater[pair{a, b}] = true
+				case bo.Op == token.LSS && !f.pol, bo.Op == token.GEQ && f.pol:
+					notGreater[pair{b, a}] = true
+				}
+			}
+			tie := false
+			for p := range notGreater {
+				if notGreater[pair{p.b, p.a}] && isNumericBasic(p.a.Type()) {
+					tie = true
+				}
+			}
+			if !tie {
+				return
+			}
+			n++
+			key := fmt.Sprintf("%s/tie-return#%d", fname(fn), n)
+			zero := true
+			for _, l := range c.originSet(ret.Results[0]) {
+				if k, ok := constInt(l); !ok || k != 0 {
+					zero = false
+				}
+			}
+			if zero {
+				r.ok(rule, key, c.at(in), desc, "returns the constant 0", true)
+			} else {
+				r.bad(rule, key, c.at(in), desc, "both `greater` and `less` are known false here and the result is not 0: two equal numbers are ordered (compare(O, X, X) is not =, sort/2 keeps duplicates)")
+			}
+		})
+	}
+	if n == 0 {
+		r.undecided(rule, "scan/tie-returns", "-", desc, "no return under `neither greater nor less` found in Float.Compare / Integer.Compare")
+	}
+}
+
+func isNumericBasic(t types.Type) bool {
+	b, ok := t.Underlying().(*types.Basic)
+	return ok && b.Info()&(types.IsInteger|types.IsFloat) != 0
+}
